@@ -1764,6 +1764,32 @@ theorem applyBatch_conflict {d : Doc} {c x : Change} (hx : x ∈ d.applied ++ d.
     apply applyBatch_of_err
     simp [collectBatch, hskip, h1, h2]
 
+/-- **C38**: a change `c` that differs from a known change `x` with the same (actor, seq) is not
+    in the document after ANY `apply_changes` call (whatever else the call offers, and whether it
+    succeeds or fails): it is rejected or discarded, never applied and never queued. -/
+theorem conflicting_never_enters {d : Doc} (hinv : d.Inv) {c x : Change}
+    (hx : x ∈ d.applied ++ d.queue) (ha : x.actor = c.actor) (hs : x.seq = c.seq) (hne : c ≠ x)
+    (cs : List Change) :
+    c ∉ (applyBatch d cs).1.applied ++ (applyBatch d cs).1.queue := by
+  have hold : c ∉ d.applied ++ d.queue := fun hc => hne (actorSeq_inj hinv.seqNodup hc hx ha.symm hs.symm)
+  rcases applyBatch_cases d cs hinv with ⟨_, _, q, heq, hq⟩ | ⟨batch, topo, _, _, _, _, happ, hperm, _, hinv'⟩
+  · rw [heq]
+    intro hc
+    apply hold
+    rcases List.mem_append.mp hc with hc | hc
+    · exact List.mem_append_left _ hc
+    · apply List.mem_append_right
+      rcases hq with rfl | rfl
+      · exact hc
+      · exact (removeActorBranchFrom_sublist _ _ _).subset hc
+  · intro hc
+    have hx' : x ∈ (applyBatch d cs).1.applied ++ (applyBatch d cs).1.queue := by
+      rw [happ, List.append_assoc]
+      rcases List.mem_append.mp hx with hx | hx
+      · exact List.mem_append_left _ hx
+      · exact List.mem_append_right _ (hperm.mem_iff.mpr (List.mem_append_left _ hx))
+    exact hne (actorSeq_inj hinv'.seqNodup hc hx' ha.symm hs.symm)
+
 deriving instance DecidableEq for Doc
 
 instance : DecidableEq (Except ApplyErr Unit)
